@@ -212,6 +212,28 @@ def run_check_locked(P, tier, seed, replay=None, only_tie=None):
                 t = "library axiom (Print Assumptions): " + a
                 if t not in trusted:
                     trusted.append(t)
+        # thorough tier: independent re-check of the compiled property files with coqchk, which also
+        # reports axioms, type-in-type, unsafe fixpoints and assumed positivity for everything they load
+        if tier == "thorough" and proofs_ok:
+            for f in P.PROP_FILES:
+                mod = "BV." + f[:-2].replace("/", ".")
+                rc, out, dt = core.run(["timeout", "3000", "coqchk", "-o", "-silent", "-Q", core.COQ, "BV", mod])
+                rep = {}
+                for key, pat in (("axioms", r"\* Axioms:(.*?)\n\s*\n"), ("type_in_type", r"relying on type-in-type:(.*?)\n\s*\n"),
+                                 ("unsafe_fixpoints", r"unsafe \(co\)fixpoints:(.*?)\n\s*\n"), ("assumed_positivity", r"positivity is assumed:(.*?)\n\s*\n")):
+                    import re as _re
+                    m = _re.search(pat, out + "\n\n", _re.S)
+                    rep[key] = " ".join(m.group(1).split()) if m else "?"
+                rep["seconds"] = round(dt, 1)
+                coverage.setdefault("coqchk", {})[f] = rep
+                clean = rc == 0 and all(rep[k] == "<none>" for k in ("type_in_type", "unsafe_fixpoints", "assumed_positivity"))
+                ax = [a for a in rep["axioms"].split() if a != "<none>"]
+                if ax and any(a.split(".")[-1] not in core.ALLOWED_AXIOMS and a not in core.ALLOWED_AXIOMS for a in ax):
+                    clean = False
+                if not clean:
+                    proofs_ok = False
+                    pr["failed_files"].append(f)
+                    pr["log"] += "\n[coqchk] " + out[-1500:]
         proof_failure = None
         if not proofs_ok:
             failing = pr["failed_files"] or P.PROP_FILES
